@@ -176,13 +176,13 @@ Definition kf_f15 (args : list val) : bool :=
     authority has unbalanced brackets *)
 Definition kf_f17_with (ip_parse : str -> option (N * str)) (args : list val) : bool :=
   match args with
-  | o :: _ =>
+  | (WList _ as o) :: _ =>      (* an observation: a failed program is never this finding *)
       (match nthv i_raw_host o with
        | WStr h =>
            mem 58 h &&
            let '(addr, _, _) := partition 37 h in
            match ip_parse addr with Some (6, _) => false | _ => true end
-       | WErr _ => true
+       | WErr ValueError => true
        | _ => false
        end)
       || match nthv i_netloc o with
